@@ -2,16 +2,20 @@
 // Engine E4: every ordered tuple of R replicas, each replica = any subset of a G-point time grid shifted by a
 // per-replica phase, merged by the real dedup.NewSeriesSet(.., f, "penalty") over the production replica
 // iterators (query.NewPromSeriesSet over XOR chunks); read once with Next only and once per seek target with
-// Seek first.
+// Seek first. Seek targets: around every sample timestamp, far from the samples (-1, 0) and the ends of the int64
+// domain (MinInt64, MinInt64+1, MaxInt64); the grid either lies at positive times or straddles 0.
 package c01
 
 import (
-	"encoding/json"
 	"fmt"
 	"iter"
+	"math"
 	"sort"
+	"strconv"
+	"sync/atomic"
 	"testing"
 
+	"github.com/prometheus/prometheus/storage"
 	"github.com/prometheus/prometheus/tsdb/chunkenc"
 	"github.com/thanos-io/thanos/pkg/store/storepb"
 
@@ -27,8 +31,9 @@ type Case struct {
 	Step     int64  `json:"step"` // grid step in ms
 	G        int    `json:"g"`    // grid points
 	Reps     []Rep  `json:"reps"`
-	SameVals bool   `json:"same_vals"` // values depend on the timestamp only (identical replicas possible)
-	F        string `json:"f"`         // query function hint (non-counter)
+	SameVals bool   `json:"same_vals"`     // values depend on the timestamp only (identical replicas possible)
+	F        string `json:"f"`             // query function hint ("" and max_over_time: non-counter; rate: counter, timestamps only)
+	Off      int64  `json:"off,omitempty"` // ms added to every timestamp (0: grid starts at +100 s; -(100 s+step): grid = -step, 0, +step, ..)
 }
 
 const base = int64(100000) // first grid instant
@@ -48,7 +53,7 @@ func (c Case) samples() [][]sample {
 			if rp.Mask&(1<<uint(i)) == 0 {
 				continue
 			}
-			t := base + int64(i)*c.Step + rp.Phase
+			t := base + c.Off + int64(i)*c.Step + rp.Phase
 			v := float64(t)
 			if !c.SameVals {
 				v += float64(r+1) * 1e7 // encodes the replica: provenance is checkable
@@ -57,6 +62,28 @@ func (c Case) samples() [][]sample {
 		}
 	}
 	return out
+}
+
+// key identifies the case (cheaper than JSON; only used to count distinct non-trivial cases).
+func (c Case) key() string {
+	b := make([]byte, 0, 64)
+	b = strconv.AppendInt(b, c.Step, 10)
+	b = append(b, '/')
+	b = strconv.AppendInt(b, int64(c.G), 10)
+	b = append(b, '/')
+	b = strconv.AppendInt(b, c.Off, 10)
+	b = append(b, '/')
+	b = append(b, c.F...)
+	if c.SameVals {
+		b = append(b, '=')
+	}
+	for _, rp := range c.Reps {
+		b = append(b, '|')
+		b = strconv.AppendUint(b, rp.Mask, 10)
+		b = append(b, '+')
+		b = strconv.AppendInt(b, rp.Phase, 10)
+	}
+	return string(b)
 }
 
 func (c Case) identical() bool {
@@ -68,35 +95,55 @@ func (c Case) identical() bool {
 	return c.SameVals
 }
 
-type shape struct{ r, g int }
+// family: one block of the enumerated space.
+type family struct {
+	r, g int
+	zero bool     // the grid straddles 0 (timestamps -step+phase, 0+phase, step+phase, ..) instead of starting at +100 s
+	fs   []string // function hints
+}
+
+var (
+	fsBoth    = []string{"", "max_over_time"}
+	fsPlain   = []string{""}
+	fsCounter = []string{"rate"}
+)
+
+func families(r *vlib.R) []family {
+	// small/new blocks first: a deadline cuts the tail of the big historical blocks, not these
+	return vlib.Pick(r,
+		[]family{
+			{1, 4, true, fsBoth}, {2, 4, true, fsBoth}, {2, 4, false, fsCounter}, {4, 2, false, fsPlain}, {3, 3, true, fsPlain},
+			{1, 5, false, fsBoth}, {2, 5, false, fsBoth}, {3, 4, false, fsPlain}},
+		[]family{
+			{1, 5, true, fsBoth}, {2, 5, true, fsBoth}, {2, 5, false, fsCounter}, {3, 3, false, fsCounter}, {4, 2, false, fsCounter},
+			{3, 4, true, fsPlain}, {4, 2, true, fsPlain},
+			{1, 7, false, fsBoth}, {2, 7, false, fsBoth}, {3, 5, false, fsPlain}, {4, 3, false, fsPlain}})
+}
 
 func gen(r *vlib.R) iter.Seq[Case] {
-	// (replica count, grid size): quick and thorough.
-	shapes := vlib.Pick(r,
-		[]shape{{1, 5}, {2, 5}, {3, 4}},
-		[]shape{{1, 7}, {2, 7}, {3, 5}, {4, 3}})
-	fs := []string{"", "max_over_time"}
+	fams := families(r)
 	return func(yield func(Case) bool) {
-		for _, sh := range shapes {
+		for _, fam := range fams {
 			for _, step := range []int64{1000, 10000} {
-				ph := phasesFor(step, r.Thorough() && sh.r <= 2)
-				per := (1 << uint(sh.g)) * len(ph)
-				for tup := range vlib.Tuples(sh.r, per) {
-					reps := make([]Rep, sh.r)
+				ph := phasesFor(step, r.Thorough() && fam.r <= 2)
+				per := (1 << uint(fam.g)) * len(ph)
+				off := int64(0)
+				if fam.zero {
+					off = -(base + step)
+				}
+				for tup := range vlib.Tuples(fam.r, per) {
+					reps := make([]Rep, fam.r)
 					for i, x := range tup {
 						reps[i] = Rep{Mask: uint64(x / len(ph)), Phase: ph[x%len(ph)]}
 					}
-					for fi, f := range fs {
-						if fi > 0 && sh.r > 2 {
-							break // the second function hint (same code path in dedup) only for R <= 2
-						}
-						c := Case{Step: step, G: sh.g, Reps: reps, F: f}
+					for _, f := range fam.fs {
+						c := Case{Step: step, G: fam.g, Reps: reps, F: f, Off: off}
 						if !yield(c) {
 							return
 						}
 						// identical replicas need equal values: the same layout once more with t-only values
 						c.SameVals = true
-						if sh.r > 1 && c.identical() {
+						if fam.r > 1 && c.identical() {
 							if !yield(c) {
 								return
 							}
@@ -106,6 +153,10 @@ func gen(r *vlib.R) iter.Seq[Case] {
 			}
 		}
 	}
+}
+
+func isCounterHint(f string) bool {
+	return f == "rate" || f == "irate" || f == "increase" || f == "resets"
 }
 
 func eq(a, b []sample) bool {
@@ -123,17 +174,58 @@ func eq(a, b []sample) bool {
 func TestCheck(t *testing.T) {
 	r := vlib.New(t, "C01")
 	defer r.Finish()
-	r.Rule("every ordered tuple of R replicas (q: R=1,2 on a 5-point grid, R=3 on 4 points; t: R=1,2 on 7, R=3 on 5, R=4 on 3), each replica any subset " +
-		"of the grid x phase {0,+1ms,+step/2 [t, R<=2: +step/2+1]} x step {1s,10s} x f {\"\", max_over_time for R<=2}; every layout of identical replicas also with equal values; " +
-		"each case read Next-only and, for every seek target u-1,u,u+1 around every sample timestamp u, with Seek first; " +
-		"non-trivial = distinct cases whose Next-only output mixes samples of >= 2 replicas")
-	r.Assume("replica iterators are the production ones (query.NewPromSeriesSet over one raw XOR chunk per replica, unbounded mint/maxt); " +
-		"an empty replica is a zero-sample chunk; timestamps are > 0; float samples only")
+	r.Rule("every ordered tuple of R replicas, each replica any subset of a G-point grid x phase {0,+1ms,+step/2 [t, R<=2: +step/2+1]} x step {1s,10s}; " +
+		"(R,G) q: (1,5) (2,5) (3,4) (4,2), t: (1,7) (2,7) (3,5) (4,3) on a grid at +100 s, and q: (1,4) (2,4) (3,3), t: (1,5) (2,5) (3,4) (4,2) on a grid that straddles 0 " +
+		"(negative, zero and positive timestamps); f {\"\", max_over_time for R<=2}; every layout of identical replicas also with equal values; " +
+		"counter hint f=rate (timestamp clauses only) q: (2,4), t: (2,5) (3,3) (4,2); " +
+		"each case read Next-only and, by a fresh iterator that calls Seek first, for every seek target in {u-1,u,u+1 around every sample timestamp u} + {-1, 0} + " +
+		"{MinInt64, MinInt64+1, MaxInt64}; non-trivial = distinct cases whose Next-only output mixes samples of >= 2 replicas")
+	r.Assume("replica iterators are the production ones (query.NewPromSeriesSet over one raw XOR chunk per replica, unbounded mint/maxt), each behind a transparent "+
+		"call-counting delegate (step budget instead of a wall-clock hang guard); an empty replica is a zero-sample chunk; sample timestamps are small (|t| <= 200 s); float samples only",
+		"for the counter hint (outside the statement's quantifier for the provenance/unchanged clauses) only strictly increasing timestamps and the seek-suffix equality of timestamps are asserted")
 	vlib.ForEach(r, gen(r), func(c Case) { evalCase(r, c) })
+	r.Set("step_budget_max_used_permille", maxUsedPermille.Load())
+	r.Add("seek_first_runs", nSeek.Load())
+	r.Add("seek_first_runs_extreme_targets", nSeekExtreme.Load())
+	r.Add("identical_replica_cases", nIdentical.Load())
+	r.Add("counter_hint_cases", nCounter.Load())
+	r.Add("cases_grid_straddles_zero", nZero.Load())
+	r.Add("cases_4_replicas", nFour.Load())
+}
+
+// evidence counters (atomics: the reporter's mutex is too contended for per-case updates)
+var nSeek, nSeekExtreme, nIdentical, nCounter, nZero, nFour atomic.Int64
+
+// largest share of the step budget any reader used (evidence that the budget is far from the real cost)
+var maxUsedPermille atomic.Int64
+
+func noteUsed(left, limit int) {
+	u := int64(limit-left) * 1000 / int64(limit)
+	for {
+		cur := maxUsedPermille.Load()
+		if u <= cur || maxUsedPermille.CompareAndSwap(cur, u) {
+			return
+		}
+	}
+}
+
+// extreme seek targets: the ends of the int64 domain (sentinel values of the implementation live there).
+var extremeTargets = []int64{math.MinInt64, math.MinInt64 + 1, math.MaxInt64}
+
+// far seek targets: plain values that are not derived from the sample timestamps.
+var farTargets = []int64{-1, 0}
+
+func reportPanic(r *vlib.R, c Case, p any, during string) {
+	if _, ok := p.(errBudget); ok {
+		r.Violation("reader-does-not-finish-within-step-budget", during+": the replica iterators received more Next/Seek calls than 16x(samples+2)xreplicas+64 (non-terminating loop)", c)
+		return
+	}
+	r.Violation("panic-in-code-under-test", fmt.Sprintf("%s: panic: %v", during, p), c)
 }
 
 func evalCase(r *vlib.R, c Case) {
 	reps := c.samples()
+	counter := isCounterHint(c.F)
 	chks := make([]storepb.AggrChunk, len(reps))
 	held := map[sample]int{}
 	var union []int64
@@ -149,18 +241,52 @@ func evalCase(r *vlib.R, c Case) {
 		}
 	}
 	r.Sample(c)
+	// the counter hint adjusts values (C02's subject): only timestamps are compared there
+	norm := func(ss []sample) []sample {
+		if counter {
+			for i := range ss {
+				ss[i].V = 0
+			}
+		}
+		return ss
+	}
 
-	it, set, ok := newDedupIterator(chks, c.F)
+	limit := 16*(total+2)*len(reps) + 64
+	bud := &budget{left: limit}
+	var (
+		ser  storage.Series
+		set  storage.SeriesSet
+		ok   bool
+		out  []sample
+		bad  bool
+		more bool
+		ierr error
+	)
+	if p := guarded(func() { ser, set, ok = newDedupSeries(chks, c.F, bud) }); p != nil {
+		reportPanic(r, c, p, "building the merged series")
+		return
+	}
 	if !ok {
 		r.Violation("no-series-returned", fmt.Sprintf("dedup set yielded no series (err %v)", set.Err()), c)
 		return
 	}
-	out, bad := drain(it, total)
-	if set.Next() {
+	if p := guarded(func() {
+		bud.left = limit
+		it := ser.Iterator(nil)
+		out, bad = drain(it, total)
+		more = set.Next()
+		ierr = it.Err()
+	}); p != nil {
+		reportPanic(r, c, p, "Next-only reader")
+		return
+	}
+	noteUsed(bud.left, limit)
+	out = norm(out)
+	if more {
 		r.Violation("replicas-not-merged-into-one-series", "dedup set yielded more than one series for equal label sets", c)
 	}
-	if err := it.Err(); err != nil {
-		r.Violation("iterator-error", err.Error(), c)
+	if ierr != nil {
+		r.Violation("iterator-error", ierr.Error(), c)
 		return
 	}
 	if bad {
@@ -173,87 +299,125 @@ func evalCase(r *vlib.R, c Case) {
 			break
 		}
 	}
-	// clause 2: provenance
-	from := map[int]bool{}
-	for _, s := range out {
-		ri, ok := held[s]
-		if !ok {
-			r.Violation("sample-not-held-by-any-replica", fmt.Sprintf("Next-only output %v: (%d,%v) is in no replica %v", out, s.T, s.V, reps), c)
-			break
+	if counter {
+		nCounter.Add(1)
+	} else {
+		// clause 2: provenance
+		from := map[int]bool{}
+		for _, s := range out {
+			ri, ok := held[s]
+			if !ok {
+				r.Violation("sample-not-held-by-any-replica", fmt.Sprintf("Next-only output %v: (%d,%v) is in no replica %v", out, s.T, s.V, reps), c)
+				break
+			}
+			from[ri] = true
 		}
-		from[ri] = true
-	}
-	if !c.SameVals && len(from) >= 2 {
-		b, _ := json.Marshal(c)
-		r.Nontrivial(string(b))
-	}
-	// clause 3: a single replica / identical replicas come out unchanged
-	if len(reps) == 1 && !eq(out, reps[0]) {
-		r.Violation("single-replica-changed", fmt.Sprintf("got %v want %v", out, reps[0]), c)
-	}
-	if len(reps) > 1 && c.identical() {
-		r.Add("identical_replica_cases", 1)
-		if !eq(out, reps[0]) {
-			r.Violation("identical-replicas-changed", fmt.Sprintf("got %v want %v", out, reps[0]), c)
+		if !c.SameVals && len(from) >= 2 {
+			r.Nontrivial(c.key())
+		}
+		// clause 3: a single replica / identical replicas come out unchanged
+		if len(reps) == 1 && !eq(out, reps[0]) {
+			r.Violation("single-replica-changed", fmt.Sprintf("got %v want %v", out, reps[0]), c)
+		}
+		if len(reps) > 1 && c.identical() {
+			nIdentical.Add(1)
+			if !eq(out, reps[0]) {
+				r.Violation("identical-replicas-changed", fmt.Sprintf("got %v want %v", out, reps[0]), c)
+			}
 		}
 	}
 
-	// clause 4: Seek(t) first == suffix of the Next-only reader
-	sort.Slice(union, func(i, j int) bool { return union[i] < union[j] })
-	var targets []int64
-	add := func(x int64) {
-		if n := len(targets); n == 0 || targets[n-1] < x {
-			targets = append(targets, x)
-		}
-	}
+	// clause 4: Seek(t) first == suffix of the Next-only reader, for ordinary targets first, then the int64 extremes
+	ord := map[int64]bool{}
 	for _, u := range union {
-		add(u - 1)
-		add(u)
-		add(u + 1)
+		ord[u-1], ord[u], ord[u+1] = true, true, true
 	}
-	if len(targets) == 0 {
-		targets = []int64{base}
+	if len(union) == 0 {
+		ord[base+c.Off] = true
 	}
+	for _, x := range farTargets {
+		ord[x] = true
+	}
+	targets := make([]int64, 0, len(ord)+len(extremeTargets))
+	for x := range ord {
+		targets = append(targets, x)
+	}
+	sort.Slice(targets, func(i, j int) bool { return targets[i] < targets[j] })
+	nOrd := len(targets)
+	targets = append(targets, extremeTargets...)
+
 	// first timestamp held by the replicas other than the last one (the `a` side of the outermost merge)
-	leadFirst := int64(-1)
+	var leadFirst int64
+	haveLead := false
 	for _, ss := range reps[:len(reps)-1] {
-		if len(ss) > 0 && (leadFirst < 0 || ss[0].T < leadFirst) {
-			leadFirst = ss[0].T
+		if len(ss) > 0 && (!haveLead || ss[0].T < leadFirst) {
+			leadFirst, haveLead = ss[0].T, true
 		}
+	}
+	suffix := ""
+	if counter {
+		suffix = "-counter-hint-timestamps"
 	}
 	seen := map[string]bool{}
-	for _, tg := range targets {
+	ordFailed := false
+	for ti, tg := range targets {
 		var want []sample
 		for _, s := range out {
 			if s.T >= tg {
 				want = append(want, s)
 			}
 		}
-		it, _, ok := newDedupIterator(chks, c.F)
-		if !ok {
+		var got []sample
+		if p := guarded(func() {
+			bud.left = limit
+			it := ser.Iterator(nil)
+			if vt := it.Seek(tg); vt != chunkenc.ValNone {
+				ts, v := it.At()
+				got = append(got, sample{ts, v})
+				rest, _ := drain(it, total)
+				got = append(got, rest...)
+			}
+		}); p != nil {
+			reportPanic(r, c, p, fmt.Sprintf("Seek(%d)-first reader", tg))
 			return
 		}
-		var got []sample
-		if vt := it.Seek(tg); vt != chunkenc.ValNone {
-			ts, v := it.At()
-			got = append(got, sample{ts, v})
-			rest, _ := drain(it, total)
-			got = append(got, rest...)
+		noteUsed(bud.left, limit)
+		got = norm(got)
+		if eq(got, want) {
+			continue
 		}
-		r.Add("seek_first_runs", 1)
-		if !eq(got, want) {
-			sig := "seek-first-reader-not-suffix"
-			if len(reps) > 1 && tg <= leadFirst {
-				// narrow class: Seek issued before any Next on a merged (>= 2 replicas) iterator with a target at or
-				// before the first sample of the leading replicas (all but the last one): Seek answers from them
-				// alone, without selecting a sample through Next.
-				sig = "seek-before-first-next-target-at-or-before-first-sample-not-suffix"
-			}
-			if seen[sig] {
-				continue // one counter-example per class and case
-			}
-			seen[sig] = true
-			r.Violation(sig, fmt.Sprintf("Seek(%d) first then Next: got %v, want the >=%d suffix %v of the Next-only output %v; replicas %v", tg, got, tg, want, out, reps), c)
+		sig := "seek-first-reader-not-suffix"
+		switch {
+		case len(reps) == 1 && tg == math.MinInt64 && !ordFailed:
+			// narrow class: no merge at all (one replica is handed through: the production chunk iterator answers itself) and
+			// the first call is Seek(MinInt64), the conventional "from the beginning"; every other target is answered correctly.
+			sig = "single-replica-seek-first-to-min-int64-not-suffix"
+		case ti >= nOrd && !ordFailed:
+			// narrow class: every ordinary target of this case (around the samples, -1, 0) is answered correctly, only an end
+			// of the int64 domain is not: a sentinel/overflow collision with a legal seek target.
+			sig = "seek-first-at-int64-extreme-target-not-suffix"
+		case len(reps) > 1 && haveLead && tg <= leadFirst:
+			// narrow class: Seek issued before any Next on a merged (>= 2 replicas) iterator with a target at or
+			// before the first sample of the leading replicas (all but the last one): Seek answers from them
+			// alone, without selecting a sample through Next.
+			sig = "seek-before-first-next-target-at-or-before-first-sample-not-suffix"
 		}
+		if ti < nOrd {
+			ordFailed = true
+		}
+		sig += suffix
+		if seen[sig] {
+			continue // one counter-example per class and case
+		}
+		seen[sig] = true
+		r.Violation(sig, fmt.Sprintf("Seek(%d) first then Next: got %v, want the >=%d suffix %v of the Next-only output %v; replicas %v", tg, got, tg, want, out, reps), c)
+	}
+	nSeek.Add(int64(len(targets)))
+	nSeekExtreme.Add(int64(len(extremeTargets)))
+	if c.Off != 0 {
+		nZero.Add(1)
+	}
+	if len(reps) == 4 {
+		nFour.Add(1)
 	}
 }
